@@ -37,6 +37,13 @@ pub fn parse_header(line: &str) -> Option<Header> {
     None
 }
 
+/// The name a knot, stitch or function is declared with: one identifier. A dotted name
+/// would be read as a path by every reference to it (and by the paths emitted below it).
+fn parse_flow_name(text: &str) -> Option<&str> {
+    let name = parse_path_identifier(text)?;
+    if name.contains('.') { None } else { Some(name) }
+}
+
 /// Returns (name, params, ref_params, divert_params)
 type HeaderSignature = (String, Vec<String>, Vec<String>, Vec<String>);
 
@@ -48,7 +55,7 @@ fn parse_header_signature(text: &str) -> Option<HeaderSignature> {
 
     match (open, close) {
         (Some(open), Some(close)) if close > open => {
-            let name = parse_path_identifier(text[..open].trim())?.to_owned();
+            let name = parse_flow_name(text[..open].trim())?.to_owned();
             let mut parameters = Vec::new();
             let mut ref_parameters = Vec::new();
             let mut divert_parameters = Vec::new();
@@ -74,7 +81,7 @@ fn parse_header_signature(text: &str) -> Option<HeaderSignature> {
             Some((name, parameters, ref_parameters, divert_parameters))
         }
         _ => Some((
-            parse_path_identifier(text)?.to_owned(),
+            parse_flow_name(text)?.to_owned(),
             Vec::new(),
             Vec::new(),
             Vec::new(),
